@@ -75,16 +75,21 @@ class StubContext(ChainContext):
 
     def __init__(self, params, cpb):
         r = params["ref"]
+        # frame parameters (the selectors must not depend on them): varied with the parameter set, see vlib/scenario.py
+        import hashlib, json as _json
+        hb = hashlib.blake2b(_json.dumps([params, cpb], sort_keys=True, default=str).encode(), digest_size=4).digest()
+        frame_min_utxo = [1000000, 0, 1, 4310, 34482, 65535, 65536, 999978, 2 ** 32, 1000000, 5000000][hb[0] % 11]
+        frame_word = [34482, 0, 1, 4310, 8620, 2 ** 20][hb[1] % 6]
         self._pp = ProtocolParameters(
             min_fee_constant=frac(params["b"]), min_fee_coefficient=frac(params["a"]), max_block_size=73728,
             max_tx_size=params["max_tx_size"], max_block_header_size=1100, key_deposit=2000000,
             pool_deposit=500000000, pool_influence=Fraction(3, 10), monetary_expansion=Fraction(3, 1000),
             treasury_expansion=Fraction(1, 5), decentralization_param=Fraction(0), extra_entropy="",
-            protocol_major_version=9, protocol_minor_version=0, min_utxo=1000000, min_pool_cost=340000000,
+            protocol_major_version=9, protocol_minor_version=0, min_utxo=frame_min_utxo, min_pool_cost=340000000,
             price_mem=frac(params["price_mem"]), price_step=frac(params["price_step"]),
             max_tx_ex_mem=params["max_mem"], max_tx_ex_steps=params["max_steps"], max_block_ex_mem=50000000,
             max_block_ex_steps=40000000000, max_val_size=5000, collateral_percent=150, max_collateral_inputs=3,
-            coins_per_utxo_word=34482, coins_per_utxo_byte=cpb, cost_models={},
+            coins_per_utxo_word=frame_word, coins_per_utxo_byte=cpb, cost_models={},
             maximum_reference_scripts_size=None if r is None else {"bytes": r["max"]},
             min_fee_reference_scripts=None if r is None else {"base": frac(r["base"]), "range": r["range"],
                                                               "multiplier": frac(r["mult"])})
